@@ -9,17 +9,18 @@ import (
 // Fault kinds: each is a header a faulty validator / relayer could produce. "duplicate" is a
 // relayer-level fault (re-submission of a stored header) and has no generator here.
 var faultKinds = []string{
-	"outsider_signer",         // sealed by a key that was never a validator
-	"stale_signer",            // sealed by a validator key that is not in the set in effect
-	"recent_signer",           // sealed by a member that sealed within the recent-signer window
-	"swapped_difficulty",      // eligible sealer, in-turn/out-of-turn difficulty swapped
-	"malformed_extra",         // vanity / seal lengths wrong
-	"bad_validator_bytes_len", // epoch block whose validator bytes are not a multiple of 20
-	"validators_on_non_epoch", // validator bytes on a block that is not an epoch block
-	"early_epoch_change",      // sealed by a member of the announced set before it takes effect
-	"unknown_parent",          // parent hash that is no generated header
-	"wrong_height",            // number != parent number + 1
-	"corrupt_signature",       // honest header with a damaged seal
+	"outsider_signer",          // sealed by a key that was never a validator
+	"stale_signer",             // sealed by a validator key that is not in the set in effect
+	"recent_signer",            // sealed by a member that sealed within the recent-signer window
+	"swapped_difficulty",       // eligible sealer, in-turn/out-of-turn difficulty swapped
+	"malformed_extra",          // vanity / seal lengths wrong
+	"bad_validator_bytes_len",  // epoch block whose validator bytes are not a multiple of 20
+	"validators_on_non_epoch",  // validator bytes on a block that is not an epoch block
+	"early_epoch_change",       // sealed by a member of the announced set before it takes effect
+	"unknown_parent",           // parent hash that is no generated header
+	"wrong_height",             // number != parent number + 1
+	"corrupt_signature",        // honest header with a damaged seal
+	"wrong_checkpoint_signers", // clique only: checkpoint listing another signer set than the one in effect
 }
 
 func kindIndex(k string) int {
@@ -42,21 +43,27 @@ func minus(a, b []ecommon.Address) []ecommon.Address {
 }
 
 func (c *simChain) turnDifficulty(set []ecommon.Address, number uint64, sealer ecommon.Address) *big.Int {
-	if len(set) > 0 && set[number%uint64(len(set))] == sealer {
-		return big.NewInt(2)
-	}
-	return big.NewInt(1)
+	return c.wantDifficulty(set, number, sealer)
 }
 
 // mkBad generates one faulty header of the given kind on an honest parent chosen by
 // parentSel among the parents where the kind is applicable (noop node if there is none).
 func (c *simChain) mkBad(kind string, parentSel, a, b int64) *node {
-	var cands []*node
+	var cands, storedCands []*node
 	for _, p := range c.honestNodes() {
 		if c.applicable(kind, p) {
 			cands = append(cands, p)
+			if p.stored {
+				storedCands = append(storedCands, p)
+			}
 		}
 	}
+	// an even parentSel builds on a parent the light client already holds (the fault then
+	// fires at once); an odd one on any generated parent (the parent may arrive later or never)
+	if parentSel%2 == 0 && len(storedCands) > 0 {
+		cands = storedCands
+	}
+	parentSel /= 2
 	if len(cands) == 0 {
 		return c.addNoop(kind)
 	}
@@ -72,7 +79,7 @@ func (c *simChain) mkBad(kind string, parentSel, a, b int64) *node {
 	set, announced, before := c.setFor(p, number)
 	signer := c.keys[c.byAddr[d.sealer]]
 	setCoinbase := func(k *key) {
-		if !c.v.clique {
+		if !c.v.clique && !c.v.bor {
 			h.Coinbase = k.addr
 		}
 	}
@@ -110,6 +117,15 @@ func (c *simChain) mkBad(kind string, parentSel, a, b int64) *node {
 		setCoinbase(signer)
 		h.Difficulty = c.turnDifficulty(set, number, signer.addr)
 	case "swapped_difficulty":
+		if c.v.bor {
+			// proposer claims a backup's difficulty, a backup claims the proposer's
+			if d.sealer == set[c.propIdx] {
+				h.Difficulty = big.NewInt(int64(len(set) - 1 - mod(b, len(set)-1)))
+			} else {
+				h.Difficulty = big.NewInt(int64(len(set)))
+			}
+			break
+		}
 		h.Difficulty = big.NewInt(3 - h.Difficulty.Int64())
 	case "malformed_extra":
 		van := h.Extra[:extraVanity]
@@ -125,10 +141,8 @@ func (c *simChain) mkBad(kind string, parentSel, a, b int64) *node {
 		}
 	case "bad_validator_bytes_len":
 		vals := listed(h)
-		raw := []byte{}
-		for _, v := range vals {
-			raw = append(raw, v[:]...)
-		}
+		raw := append([]byte{}, h.Extra[extraVanity:len(h.Extra)-extraSeal]...)
+		_ = vals
 		if mod(b, 2) == 0 {
 			raw = raw[:len(raw)-1-mod(b/2, addrLen-1)]
 		} else {
@@ -138,7 +152,7 @@ func (c *simChain) mkBad(kind string, parentSel, a, b int64) *node {
 	case "validators_on_non_epoch":
 		// a validator tries to install a set of its choice outside an epoch block
 		vals := c.pickSet(b|1, nil)
-		if mod(b, 3) == 0 {
+		if mod(b, 2) == 0 {
 			vals = []ecommon.Address{c.keys[nUniverse].addr, c.keys[nUniverse+1].addr, signer.addr}
 			sortAddrs(vals)
 		}
@@ -178,6 +192,15 @@ func (c *simChain) mkBad(kind string, parentSel, a, b int64) *node {
 		h.Difficulty = c.turnDifficulty(set, uint64(nn), signer.addr)
 	case "corrupt_signature":
 		// sealed below, damaged afterwards
+	case "wrong_checkpoint_signers":
+		other := c.pickSet(b|1, nil)
+		for i := int64(0); sameSet(other, set) && i < 8; i++ {
+			other = c.pickSet((b|1)+2*i+2, nil)
+		}
+		if mod(b, 3) == 0 && len(set) > 1 { // or just one member missing
+			other = append([]ecommon.Address{}, set[1:]...)
+		}
+		h.Extra = c.extra(salt, other)
 	default:
 		return c.addNoop(kind)
 	}
@@ -196,7 +219,7 @@ func (c *simChain) mkBad(kind string, parentSel, a, b int64) *node {
 		parent = -1
 	}
 	n := c.add(kind, parent, h)
-	if len(n.broken) == 0 {
+	if len(n.broken) == 0 && !(kind == offEpochKind && !c.v.epochKnown()) {
 		n.noop = true // the mutation happened to leave a valid header: not a fault
 	}
 	return n
@@ -209,6 +232,8 @@ func (c *simChain) applicable(kind string, p *node) bool {
 		return c.isEpoch(number)
 	case "validators_on_non_epoch":
 		return !c.isEpoch(number)
+	case "wrong_checkpoint_signers":
+		return c.v.clique && c.isEpoch(number)
 	case "early_epoch_change":
 		if c.v.clique {
 			return len(c.cliqueCandidates(p)) > 0
@@ -219,6 +244,9 @@ func (c *simChain) applicable(kind string, p *node) bool {
 		set, announced, _ := c.setFor(p, number)
 		return len(minus(announced, set)) > 0
 	case "recent_signer":
+		if c.v.bor {
+			return false // Bor has no recent-signer rule
+		}
 		set, _, _ := c.setFor(p, number)
 		for _, r := range c.recentSealers(p, len(set)/2) {
 			if contains(set, r) {
